@@ -276,6 +276,8 @@ func dcsIgnore(r rune, p *Parser) stateFn
   ensures C02_exit: ExitOK(p, result) && (result == nil || StateOK(result))
   requires p: p != nil
   ensures C02_all:     (0 <= r && r <= 127) ==> (result == fn("dcsIgnore") && Ignored(p))
+  -- after the first byte consumed here the flag that suppresses the terminating ST is on
+  ensures C02_ignhi2:  IgnHi(p, result)
 
 func dcsPassthrough(r rune, p *Parser) stateFn
   requires ign: IgnLo(p, fn("dcsPassthrough"))
@@ -286,6 +288,7 @@ func dcsPassthrough(r rune, p *Parser) stateFn
   ensures C02_put:     ((C0x(r) || (32 <= r && r <= 126)) ==> (result == fn("dcsPassthrough") && NoLog(p)
                           && len(p.dcs.Data) == old(len(p.dcs.Data)) + 1 && p.dcs.Data[len(p.dcs.Data)-1] == r))
   ensures C02_del:     r == 127 ==> (result == fn("dcsPassthrough") && NoLog(p) && len(p.dcs.Data) == old(len(p.dcs.Data)))
+  ensures C02_ignhi2:  IgnHi(p, result)
 
 func sosPm(r rune, p *Parser) stateFn
   requires ign: IgnLo(p, fn("sosPm"))
@@ -294,6 +297,7 @@ func sosPm(r rune, p *Parser) stateFn
   ensures C02_exit: ExitOK(p, result) && (result == nil || StateOK(result))
   requires p: p != nil
   ensures C02_all:     (0 <= r && r <= 127) ==> (result == fn("sosPm") && Ignored(p))
+  ensures C02_ignhi2:  IgnHi(p, result)
 
 func apc(r rune, p *Parser) stateFn
   requires ign: IgnLo(p, fn("apc"))
@@ -304,6 +308,7 @@ func apc(r rune, p *Parser) stateFn
   ensures C02_c0:      C0x(r) ==> (result == fn("apc") && Ignored(p) && len(p.apcData) == old(len(p.apcData)))
   ensures C02_data:    (32 <= r && r <= 127) ==> (result == fn("apc") && NoLog(p)
                           && len(p.apcData) == old(len(p.apcData)) + 1 && p.apcData[len(p.apcData)-1] == r)
+  ensures C02_ignhi2:  IgnHi(p, result)
 
 func (p *Parser) hook(r rune)
   ensures C02_exit: isbound(p.exit, "unhook", p)
@@ -326,6 +331,7 @@ func oscString(r rune, p *Parser) stateFn
   ensures C02_c0:   (C0x(r) && r != 7) ==> (result == fn("oscString") && NoLog(p) && len(p.oscData) == old(len(p.oscData)))
   ensures C02_data: (32 <= r && r <= 127) ==> (result == fn("oscString") && NoLog(p)
                        && len(p.oscData) == old(len(p.oscData)) + 1 && p.oscData[len(p.oscData)-1] == r)
+  ensures C02_ignhi2:  IgnHi(p, result)
 
 func escape(r rune, p *Parser) stateFn
   requires ign: IgnLo(p, fn("escape"))
